@@ -153,6 +153,9 @@ func (e *Engine) Install(l *Loaded) error {
 		return fmt.Errorf("models.RuntimeError missing")
 	}
 	e.runtimeErrT = rt.Type()
+	if rty := mp.Type("RType"); rty != nil {
+		e.rtypeT = rty.Type()
+	}
 	if rp := l.Prog.ImportedPackage("runtime"); rp != nil {
 		if pn := rp.Type("PanicNilError"); pn != nil {
 			e.panicNilT = types.NewPointer(pn.Type())
